@@ -37,6 +37,10 @@ func runC06(c *Ctx) {
 	c06Omit(c, a)
 	// the embedded mapping round-trips: each kind writes its flag, gamma, offset and the reader arm of that flag rebuilds the same kind
 	c.shared(func() { c19Binary(c, mappingInfos(c, "C06")) }, func(o *Obligation) bool { return true })
+	// decoding into a store that caches "buffer is sorted": the cache is maintained on the decode paths too
+	if pr := c.paginated(); pr.err == "" && pr.sortFlag != "" {
+		c.shared(func() { c14SortFlag(c, pr) }, func(o *Obligation) bool { return true })
+	}
 }
 
 func c06Sides(c *Ctx, a *sketchAnchors) {
@@ -524,7 +528,9 @@ func c06Additive(c *Ctx, a *sketchAnchors) {
 						n++
 						key := fmt.Sprintf("%s/write/%s", shortFn(f), strings.TrimPrefix(at.Key(), "field:"))
 						ok := vt.isBin("+") && (vt.Args[0].Key() == at.Key() || vt.Args[1].Key() == at.Key()) ||
-							vt.Op == "builtin" && vt.Sym == "append" && vt.Args[0].Key() == at.Key()
+							vt.Op == "builtin" && vt.Sym == "append" && vt.Args[0].Key() == at.Key() ||
+							// lowering the "buffer is sorted" cache flag is always safe (its maintenance is C14-D1 sorted-flag)
+							pr.sortFlag != "" && isRecvField(at, pr.sortFlag) && vt.isConst("false")
 						c.R.check(ok, rule, key, shortFn(f), c.ipos(in), "store state is only accumulated into while decoding (page[i] += c, buffer = append(buffer, i))", vt.Key())
 					case *ssa.Call:
 						t := tc.Of(in)
